@@ -265,7 +265,12 @@ Lemma seeds_parent_valid c ds (cands : cmap) p : seeds_valid c ds cands = true -
   p < length ds /\ S (d_lvl (dnth p ds)) < height c.
 Proof.
   unfold seeds_valid. rewrite forallb_forall. intros H Hin. apply in_map_iff in Hin as (pk & <- & Hpk).
-  specialize (H pk Hpk). apply andb_prop in H as (H1 & H2). apply Nat.ltb_lt in H1, H2. auto.
+  specialize (H pk Hpk). apply andb_prop in H as (H12 & H3). apply andb_prop in H12 as (H1 & H2). apply Nat.ltb_lt in H1, H2. auto.
+Qed.
+Lemma seeds_parent_ran c ds (cands : cmap) p : seeds_valid c ds cands = true -> In p (map fst cands) -> 1 <= d_meta (dnth p ds).
+Proof.
+  unfold seeds_valid. rewrite forallb_forall. intros H Hin. apply in_map_iff in Hin as (pk & <- & Hpk).
+  specialize (H pk Hpk). apply andb_prop in H as (_ & H3). now apply Nat.leb_le in H3.
 Qed.
 
 (* ================================================================ Inv2 (C07): the demes form a well-formed tree of the configured height *)
